@@ -96,6 +96,37 @@ type memCase struct {
 	HighW int64   `json:"mem_high_water_mark"`
 	Mems  []int64 `json:"memory_readings"`
 	Count bool    `json:"count_admissions"`
+	// fields of flow.Rule that a memory-adaptive rule does not use: whatever they hold, the effective threshold
+	// (verif export AND the number of requests a fresh window admits) is the memory envelope
+	Threshold  fl     `json:"unrelated_threshold"`
+	WuPeriod   uint32 `json:"unrelated_warm_up_period_sec,omitempty"`
+	WuCold     uint32 `json:"unrelated_warm_up_cold_factor,omitempty"`
+	MaxQueueMs uint32 `json:"unrelated_max_queueing_ms,omitempty"`
+}
+
+// unrelatedFields: every second case (by id, so that the other inputs of a case stay what they were) sets the
+// fields the strategy does not use: a threshold below, inside and above the envelope, warm-up and queueing values
+func (c *memCase) unrelatedFields() {
+	if c.ID%2 == 0 {
+		return
+	}
+	switch (c.ID / 2) % 6 {
+	case 0:
+		c.Threshold = fl(float64(c.HighT) / 2)
+	case 1:
+		c.Threshold = 1
+	case 2:
+		c.Threshold = fl(float64(c.LowT) - 1)
+	case 3:
+		c.Threshold = fl(float64(c.LowT) + 5)
+	case 4:
+		c.Threshold = 0.5
+	default:
+		c.Threshold = fl(float64(c.HighT))
+	}
+	c.WuPeriod = uint32(1 + c.ID%9)
+	c.WuCold = uint32(c.ID % 5)
+	c.MaxQueueMs = uint32(c.ID * 37 % 5000)
 }
 
 type memObs struct {
@@ -164,13 +195,15 @@ func genMem(r *rng.R, id int, total int64) memCase {
 		c.Mems = append(c.Mems, c.LowW+W/2, c.LowW+2, c.HighW-2)
 	}
 	c.Count = c.LowT <= 1500
+	c.unrelatedFields()
 	return c
 }
 
 func runMem(c memCase, clk *vclock.Clock) memObs {
 	res := "c11m-" + strconv.Itoa(c.ID)
 	rule := &flow.Rule{Resource: res, TokenCalculateStrategy: flow.MemoryAdaptive, ControlBehavior: flow.Reject,
-		LowMemUsageThreshold: c.LowT, HighMemUsageThreshold: c.HighT, MemLowWaterMarkBytes: c.LowW, MemHighWaterMarkBytes: c.HighW}
+		LowMemUsageThreshold: c.LowT, HighMemUsageThreshold: c.HighT, MemLowWaterMarkBytes: c.LowW, MemHighWaterMarkBytes: c.HighW,
+		Threshold: float64(c.Threshold), WarmUpPeriodSec: c.WuPeriod, WarmUpColdFactor: c.WuCold, MaxQueueingTimeMs: c.MaxQueueMs}
 	// reload prologue: a rule that differs from the case's rule in exactly one adaptive field is
 	// loaded first; the calculator in force afterwards must be the one of the case's rule
 	pre := *rule
@@ -364,6 +397,9 @@ func main() {
 			dist.Add(string(b))
 		}
 		rep.Count("mem_cases", 1)
+		if c.Threshold != 0 {
+			rep.Count("mem_cases_with_unrelated_fields_set", 1)
+		}
 		rep.Count("mem_readings", len(c.Mems))
 		if c.HighW-c.LowW <= 13 {
 			rep.Count("mem_small_range_swept", 1)
